@@ -10,7 +10,22 @@ use std::hash::{Hash, Hasher};
 use std::io::Write;
 use verif_harness::util::*;
 
-fn sl(k: u32) -> Slot { Slot::numeric(k) }
+thread_local! { static SLOTS: std::cell::RefCell<Vec<Slot>> = std::cell::RefCell::new(Vec::new()); }
+fn sl(k: u32) -> Slot {
+    SLOTS.with(|t| {
+        let mut t = t.borrow_mut();
+        if t.is_empty() {
+            let kinds = std::env::var("VERIF_SM_KINDS").unwrap_or_default();
+            if kinds.starts_with("mixed") {
+                let nm = verif_harness::term::Naming::new(&kinds, 64);
+                *t = (1..=64).map(|i| nm.slot(i)).collect();
+            } else {
+                *t = (0..64).map(Slot::numeric).collect();
+            }
+        }
+        t[k as usize]
+    })
+}
 fn back(s: Slot) -> Option<u32> { (0..64).find(|k| sl(*k) == s) }
 fn pairs_of(m: &SlotMap) -> Vec<(u32, u32)> {
     let mut v: Vec<(u32, u32)> = m.iter().map(|(a, b)| (back(a).unwrap_or(9999), back(b).unwrap_or(9999))).collect();
